@@ -452,6 +452,10 @@ func sendHelloDevice(ctx context.Context, transport Transport, c *TO2Config) (pr
 	}
 
 	// Validate the HelloDeviceHash
+	if alg := proveOVHdr.Payload.Val.HelloDeviceHash.Algorithm; !alg.Valid() {
+		captureErr(ctx, protocol.InvalidMessageErrCode, "")
+		return protocol.Nonce{}, nil, nil, fmt.Errorf("unsupported hash type %d for HelloDevice hash in TO2.ProveOVHdr", int64(alg))
+	}
 	helloDeviceHash := proveOVHdr.Payload.Val.HelloDeviceHash.Algorithm.HashFunc().New()
 	if err := cbor.NewEncoder(helloDeviceHash).Encode(hello); err != nil {
 		return protocol.Nonce{}, nil, nil, fmt.Errorf("error hashing HelloDevice message to verify against TO2.ProveOVHdr payload's hash: %w", err)
